@@ -43,7 +43,7 @@ Section Repr.
           match r with
           | UKeyed => DMap [(m_disc (fst m), rec (snd m) v)]
           | UKinded => rec (snd m) v
-          | UStringprefix => DString (m_disc (fst m) ++ str_of (rec (snd m) v))
+          | UStringprefix dl => DString (m_disc (fst m) ++ dl ++ str_of (rec (snd m) v))
           end
         end
     | TEnum ir es, VEnum s =>
@@ -305,10 +305,10 @@ Section Conf.
         | LType, _, DMap [(k, x)] => conf_member ms (fun m => bytes_eqb (m_name m) k) x
         | LRepr, UKeyed, DMap [(k, x)] => conf_member ms (fun m => bytes_eqb (m_disc m) k) x
         | LRepr, UKinded, x => conf_member ms (fun m => kind_eqb (m_kind m) (kind_of x)) x
-        | LRepr, UStringprefix, DString s =>
-            match find_idx (fun m => is_prefix (m_disc (fst m)) s) ms with
-            | Some (i, m) =>
-                match rec (snd m) (DString (drop (length (m_disc (fst m))) s)) with
+        | LRepr, UStringprefix dl, DString s =>
+            match sp_parse dl ms s with
+            | Some (i, m, rest) =>
+                match rec (snd m) (DString rest) with
                 | Some v => Some (VUnion i v) | None => None end
             | None => None
             end
